@@ -76,6 +76,16 @@ def trace_part(report, rng, tier):
         img = bytes(rng.choice(opc) if j % 16 == 0 else rng.getrandbits(8) for j in range(96))
         yo = "\n".join(gen.yo_line(32 + j, img[j:j + 8]) for j in range(0, len(img), 8)) + "\n"
         cases2["m%d" % i] = {"hcl": hcl, "yo": yo, "cycles": 20, "flags": rng.choice(["-", "-", "d", "t"]), "timeout": 9999}
+    # instructions lying across the top of the address space (bytes placed there through the hook)
+    for i in range(12 if tier == "quick" else 150):
+        top = (1 << 64)
+        start = top - rng.choice([1, 2, 9, 10, 11, 16])
+        hcl = "register pP { pc : 64 = %d; }\np_pc = P_pc + %d;\npc = P_pc;\nStat = STAT_AOK;\nmem_readbit = 0; mem_writebit = 0; mem_addr = 0; mem_input = 0;\n" % (start, rng.choice([1, 1, 3]))
+        inj = []
+        for a_ in list(range(top - 20, top)) + list(range(0, 24)):
+            b_ = rng.choice([0x30, 0x50, 0x63, 0x70, 0x00, 0xB0, rng.getrandbits(8) | 1])
+            inj.append("m%x=%02x" % (a_, b_))
+        cases2["w%d" % i] = {"hcl": hcl, "yo": None, "cycles": 14, "flags": "-", "timeout": 9999, "inject": inj}
     impl2, model2, stats2 = simcheck.run_sim_cases(report, cases2, key_prefix="trace-selfmod")
     for cid in cases2:
         init, cyc = histgen.parse_trace(impl2.get(cid, []))
